@@ -61,6 +61,13 @@ type Script struct {
 	Apps      [][]AOp `json:"apps"`
 	Srv       []SOp   `json:"srv,omitempty"`
 	Profile   string  `json:"profile"`
+	// second life: drop-ok drop-code disc-ok disc-code ("" = none): the first
+	// connection ends by a server-side close or by Disconnect, then Connect is
+	// called again with the same client identifier and the server answers
+	// CONNACK 0 or ReCode
+	Reconnect string `json:"reconnect,omitempty"`
+	ReCode    byte   `json:"recode,omitempty"`
+	ReNew     bool   `json:"renew,omitempty"` // a new Client value instead of the old one
 }
 
 // WirePkt is a packet on the wire with stamps.
@@ -147,6 +154,12 @@ type run struct {
 	sending                 bool
 	sendWait                []*simrt.Task
 	raceInRun               map[byte]bool
+	// second life
+	reDone, reStarted bool
+	reErr             error
+	conn2             *simnet.Conn
+	libLeftAfterRe    []simrt.TaskInfo
+	reClientClosed    bool
 }
 
 var runCounter uint64
@@ -634,7 +647,15 @@ func (r *run) director() {
 	s.Quiesce()
 	r.quiesce = append(r.quiesce, s.Stamp())
 	r.finalStamp = s.Stamp()
-	if r.connected {
+	if r.connected && strings.HasPrefix(sc.Reconnect, "drop") {
+		// the server drops the connection; the application does not call
+		// Disconnect on the dead client
+		s.Fault("server_drop")
+		r.ackerStop = true
+		r.pendingPulse.Signal(s)
+		r.conn.Close()
+		s.Quiesce()
+	} else if r.connected {
 		s.Go("disconnect", false, func() { r.cl.Disconnect(); r.disconnected = true })
 		s.Quiesce()
 	}
@@ -643,9 +664,91 @@ func (r *run) director() {
 	if r.conn != nil && !r.conn.Closed() {
 		r.conn.Close()
 	}
+	if r.connected && sc.Reconnect != "" {
+		s.Quiesce()
+		r.secondLife(l)
+	}
 	l.Close()
 	s.Quiesce()
 	r.libLeftAtEnd = s.LibTasksAlive()
+}
+
+// secondLife: Connect again under the same client identifier.
+func (r *run) secondLife(l *simnet.Listener) {
+	s := r.s
+	sc := r.sc
+	wantOK := strings.HasSuffix(sc.Reconnect, "-ok")
+	r.reStarted = true
+	s.Go("server2", false, func() {
+		nc, err := l.Accept()
+		if err != nil {
+			return
+		}
+		c := nc.(*simnet.Conn)
+		r.conn2 = c
+		var rd refmqtt.Stream
+		buf := make([]byte, 4096)
+		sent := false
+		for {
+			n, err := c.Read(buf)
+			if n > 0 {
+				for _, p := range rd.Feed(buf[:n]) {
+					switch {
+					case p.Type == refmqtt.CONNECT && !sent:
+						sent = true
+						code := byte(0)
+						if !wantOK {
+							code = sc.ReCode
+						}
+						c.Write(refmqtt.Encode(&refmqtt.Packet{Type: refmqtt.CONNACK, Code: code}))
+						if !wantOK {
+							c.Close()
+							return
+						}
+					case p.Type == refmqtt.PINGREQ:
+						c.Write(refmqtt.Encode(&refmqtt.Packet{Type: refmqtt.PINGRESP}))
+					}
+				}
+			}
+			if err != nil || rd.Err != nil {
+				return
+			}
+		}
+	})
+	cl := r.cl
+	if sc.ReNew {
+		cl = &service.Client{BufferSize: int64(sc.BufSize), ConnectTimeout: sc.ConnectTimeout}
+	}
+	s.Go("app-reconnect", false, func() {
+		cm := message.NewConnectMessage()
+		cm.SetClientID([]byte(r.clientID))
+		cm.SetVersion(4)
+		cm.SetCleanSession(true)
+		cm.SetKeepAlive(600)
+		r.reErr = cl.Connect("tcp://"+peerAddr, cm)
+		r.reDone = true
+	})
+	for i := 0; i < 64; i++ {
+		s.Quiesce()
+		if r.reDone || !s.SleepToNextTimer() {
+			break
+		}
+	}
+	if !r.reDone {
+		return
+	}
+	if r.reErr != nil {
+		r.libLeftAfterRe = s.LibTasksAlive()
+		if r.conn2 != nil {
+			r.reClientClosed = r.conn2.PeerClosed()
+		}
+	} else {
+		s.Go("disconnect2", false, func() { cl.Disconnect() })
+		s.Quiesce()
+	}
+	if r.conn2 != nil && !r.conn2.Closed() {
+		r.conn2.Close()
+	}
 }
 
 // ---------------------------------------------------------------- oracles
@@ -686,6 +789,26 @@ func (r *run) judgeConnect() {
 		cc, ok := r.connectErr.(message.ConnackCode)
 		if !ok || byte(cc) != sc.ConnCode {
 			r.viol("C20", "connect-error-is-code", fmt.Sprintf("C20/connect-error/code%d", sc.ConnCode), "Client.Connect returned error %v (%T) for CONNACK return code %d; the error must be that refusal code", r.connectErr, r.connectErr, sc.ConnCode)
+		}
+	}
+	if r.reStarted {
+		wantOK := strings.HasSuffix(sc.Reconnect, "-ok")
+		how := map[bool]string{true: "the server had dropped the first connection (no Disconnect call)", false: "Disconnect"}[strings.HasPrefix(sc.Reconnect, "drop")]
+		switch {
+		case !r.reDone:
+			r.viol("C20", "connect-result", "C20/reconnect-hangs/"+sc.Reconnect, "the second Client.Connect with the same client identifier (after %s) did not return although the server answered", how)
+		case (r.reErr == nil) != wantOK:
+			r.viol("C20", "connect-result", "C20/reconnect-result/"+sc.Reconnect, "the second Client.Connect with the same client identifier (after %s) returned %v although the server answered with CONNACK code %d", how, r.reErr, map[bool]byte{true: 0, false: sc.ReCode}[wantOK])
+		case r.reErr != nil:
+			if cc, ok := r.reErr.(message.ConnackCode); !ok || byte(cc) != sc.ReCode {
+				r.viol("C20", "connect-error-is-code", fmt.Sprintf("C20/reconnect-error/code%d", sc.ReCode), "the second Client.Connect returned error %v (%T) for CONNACK return code %d", r.reErr, r.reErr, sc.ReCode)
+			}
+			if len(r.libLeftAfterRe) > 0 {
+				r.viol("C20", "no-goroutines-left", "C20/goroutines-after-failed-reconnect/"+sc.Reconnect, "the second Client.Connect failed (%v) but %d library goroutine(s) are alive afterwards: %s", r.reErr, len(r.libLeftAfterRe), simrt.FormatTasks(r.libLeftAfterRe))
+			}
+			if r.conn2 != nil && !r.reClientClosed && !r.conn2.Closed() {
+				r.viol("C20", "connection-closed", "C20/connection-open-after-failed-reconnect", "the second Client.Connect failed (%v) but the client did not close the connection", r.reErr)
+			}
 		}
 	}
 	if r.connectErr != nil {
